@@ -30,13 +30,14 @@ pub fn total_inputs(prop: &str, tier: Tier, scale: f64) -> usize {
 const SEP_HEADS: &[&str] = &[
     "", "x", "x ", "data a", "a=1", "a=1 ", ";", "; ", "x /* c */", "x\n", "%m", "%m ", "%m(a)", "%m(a) ", "&a", "&a ", "'s'", "\"s\"",
     "%lbl:", "%lbl: ", "%if 1 %then", "%if 1 %then ", "%else", "%else ", "%let a=1;", "%put x", "%put x;", "%do;", "%end;", "%end", ")", "1",
-    "* c;", "%* c;", "x * c;", "%eval(1)", "%str(a)", "\"&a", "%m(", "%m(a ", "%macro m;", "%mend;", "%do i=1 %to 2", "%goto l", "%return",
+    "* c;", "%* c;", "x * c;", "; %* c;", "%then %* c;", "; * c;", "%else * c;", "; \\", "; `", "%then €", "%lbl: §", "%eval(1)", "%str(a)", "\"&a", "%m(", "%m(a ", "%macro m;", "%mend;", "%do i=1 %to 2", "%goto l", "%return",
     "%sysfunc(f(1))", "%let a=", "%let a", "%if", "%scan(a", "datalines;\n1\n;", "%m:", "%m :", "x%m",
 ];
 const SEP_STATS: &[&str] = &[
     "%let a=1;", "%put x;", "%if 1 %then y;", "%else z;", "%do;", "%end;", "%macro m;", "%mend;", "%local a;", "%global a;", "%goto l;",
     "%return;", "%abort;", "%copy m/s;", "%display w;", "%input a;", "%symdel a;", "%syscall f(1);", "%sysexec ls;", "%syslput a=1;",
-    "%sysmacdelete m;", "%sysmstoreclear;", "%sysrput a=1;", "%window w;", "%lbl:", "%lbl :", "%lbl: x;", "%then", "%to 2", "%by 1",
+    "%sysmacdelete m;", "%sysmstoreclear;", "%sysrput a=1;", "%window w;", "%lbl:", "%lbl :", "%lbl: x;", "%lbl\n:", "%lbl /*c*/\n:",
+    "%lbl\n/*c*/ : x;", "%lbl /* a\nb */ /*c*/:", "%lbl\n\n  :", "%then", "%to 2", "%by 1",
     "%until(1)", "%while(1)", "%include f;", "%list;", "%run;", "%m", "%m(1)", "%eval(1)", "%do %while(1);", "%do i=1 %to 2;", "%LET a=1;",
     "%Lbl:", "%é:", "%let", "%if", "%do",
 ];
